@@ -4,6 +4,7 @@ import (
 	"encoding/json"
 	"fmt"
 	"hash/fnv"
+	"os"
 	"reflect"
 	"runtime"
 	"sort"
@@ -28,6 +29,7 @@ type PipeCase struct {
 	GoMaxProcs int    `json:"gomaxprocs"`
 	Plan       string `json:"speed_plan"`
 	RealSnap   bool   `json:"real_snap"`
+	StallMs    int    `json:"stall_ms,omitempty"` // the source pauses this long once (a long-running table)
 }
 
 func (pc *PipeCase) JSON() []byte { b, _ := json.Marshal(pc); return b }
@@ -85,13 +87,17 @@ func delay(us int) {
 }
 
 type psource struct {
-	feats []*pfeat
-	log   *plog
-	delay func(i int) int
+	feats   []*pfeat
+	log     *plog
+	delay   func(i int) int
+	stallMs int
 }
 
 func (s *psource) ReadFeatures(ch chan<- processing.Feature) {
 	for i, f := range s.feats {
+		if s.stallMs > 0 && i == min(2, len(s.feats)-1) {
+			time.Sleep(time.Duration(s.stallMs) * time.Millisecond)
+		}
 		delay(s.delay(i))
 		s.log.add("read", -1, f.id)
 		ch <- f
@@ -172,7 +178,11 @@ func buildPipeline(pc *PipeCase) (feats []*pfeat, f func(p geom.Polygon, ids []i
 	for i := 0; i < pc.NFeatures; i++ {
 		ft := &pfeat{id: i}
 		ft.cols = []interface{}{int64(i), fmt.Sprintf("name-%d", i), float64(i) * 0.5, nil}
-		switch k := rng.Intn(10); {
+		k := rng.Intn(10)
+		if pc.StallMs > 0 {
+			k = 6 + i%3 // the long-running table holds non-polygon features only: whatever is re-processed shows at every target
+		}
+		switch {
 		case k < 4:
 			if pc.RealSnap {
 				sc, _ := genSnapCase(rng, &Profile{Sets: []SetChoice{{Spec: pipeSet, Bases: []int{0}, Span: 5}}, Kinds: allKinds})
@@ -278,7 +288,7 @@ func runPipeline(pc *PipeCase) *pipeRun {
 			return int(mix(pc.Seed, salt, uint64(i)) % uint64(2*base+1))
 		}
 	}
-	src := &psource{feats: feats, log: lg, delay: jit(rd, 1)}
+	src := &psource{feats: feats, log: lg, delay: jit(rd, 1), stallMs: pc.StallMs}
 	targets := map[int]processing.Target{}
 	for _, z := range pc.Targets {
 		t := &ptarget{id: z, log: lg, delay: jit(td[z], uint64(100+z)), flushDelay: flush[z]}
@@ -294,16 +304,89 @@ func runPipeline(pc *PipeCase) *pipeRun {
 	}
 	prev := runtime.GOMAXPROCS(pc.GoMaxProcs)
 	defer runtime.GOMAXPROCS(prev)
-	func() {
+	done := make(chan struct{})
+	go func() {
+		defer close(done)
 		defer func() { run.pan = recover() }()
 		processing.ProcessFeatures(src, targets, wrapped)
 		run.returned = true
 	}()
+	waitOrDeadlock(done, lg, pc)
 	for z, t := range run.targets {
 		run.doneAtRet[z] = t.done.Load()
 	}
 	lg.add("return", -1, -1)
 	return run
+}
+
+// waitOrDeadlock waits for the pipeline. The Go runtime reports a total deadlock itself ("all goroutines are asleep"),
+// but not in race-detector (cgo) builds. So the harness decides it from goroutine states, not from the clock of the
+// workload: when the event log has not advanced for 3 s, it inspects all goroutines; if every goroutine that has a frame of
+// the pipeline or of the fakes is parked on a channel / wait group / mutex (none running, runnable or sleeping) and that
+// stays so, with no new event, for another 10 s, nothing can wake them up any more. The case file names the case;
+// the process ends (its goroutines cannot be cleaned up) and the parent restarts the worker behind this case.
+func waitOrDeadlock(done chan struct{}, lg *plog, pc *PipeCase) {
+	lastSeq, lastChange := int64(-1), time.Now()
+	var stuckSince time.Time
+	for {
+		select {
+		case <-done:
+			return
+		case <-time.After(100 * time.Millisecond):
+		}
+		lg.mu.Lock()
+		seq := lg.seq
+		lg.mu.Unlock()
+		if seq != lastSeq {
+			lastSeq, lastChange, stuckSince = seq, time.Now(), time.Time{}
+			continue
+		}
+		if time.Since(lastChange) < 3*time.Second {
+			continue
+		}
+		parked, active, dump := pipelineGoroutineStates()
+		if active > 0 || parked == 0 {
+			stuckSince = time.Time{}
+			continue
+		}
+		if stuckSince.IsZero() {
+			stuckSince = time.Now()
+			continue
+		}
+		if time.Since(stuckSince) > 10*time.Second {
+			fmt.Fprintf(os.Stderr, "DEADLOCK: ProcessFeatures has not returned; no event for %.0f s and all %d goroutines of the pipeline and the fakes are parked on channel/lock operations (%d targets, %d features):\n%s\n",
+				time.Since(lastChange).Seconds(), parked, len(pc.Targets), pc.NFeatures, dump)
+			os.Exit(86)
+		}
+	}
+}
+
+// pipelineGoroutineStates: goroutines with a frame of texel's processing package or of the fakes, by state.
+func pipelineGoroutineStates() (parked, active int, dump string) {
+	buf := make([]byte, 4<<20)
+	n := runtime.Stack(buf, true)
+	var sb strings.Builder
+	for _, g := range strings.Split(string(buf[:n]), "\n\n") {
+		if !strings.Contains(g, "github.com/pdok/texel/processing") && !strings.Contains(g, "vcheck.(*psource)") && !strings.Contains(g, "vcheck.(*ptarget)") {
+			continue
+		}
+		if strings.Contains(g, "vcheck.waitOrDeadlock") {
+			continue
+		}
+		head := g
+		if i := strings.IndexByte(g, '\n'); i > 0 {
+			head = g[:i]
+		}
+		if strings.Contains(head, "chan send") || strings.Contains(head, "chan receive") || strings.Contains(head, "semacquire") || strings.Contains(head, "sync.WaitGroup") || strings.Contains(head, "sync.Mutex") || strings.Contains(head, "sync.Cond") || (strings.Contains(head, "[select") && !strings.Contains(g, "time.")) {
+			parked++
+			if sb.Len() < 6000 {
+				sb.WriteString(trimStack(g) + "\n\n")
+			}
+		} else {
+			active++
+		}
+	}
+	return parked, active, sb.String()
 }
 
 type expItem struct {
@@ -500,12 +583,16 @@ func genPipeCase(rng *fw.Rng) *PipeCase {
 		pc.NFeatures = rng.Intn(60)
 	}
 	nt := 1 + rng.Intn(5)
-	perm := rng.Perm(5)
+	pool := 5
+	if rng.Chance(1, 25) { // many targets (more than any built-in set has levels, more than 2x the CPUs of most machines)
+		nt, pool = 6+rng.Intn(43), 64
+	}
+	perm := rng.Perm(pool)
 	for i := 0; i < nt; i++ {
 		pc.Targets = append(pc.Targets, perm[i])
 	}
 	sort.Ints(pc.Targets)
-	pc.RealSnap = rng.Chance(1, 10)
+	pc.RealSnap = rng.Chance(1, 10) && pool == 5 // the real library only for ids that exist in the set used
 	if pc.RealSnap && pc.NFeatures > 60 {
 		pc.NFeatures = 60
 	}
